@@ -3,6 +3,7 @@ Realign a GAF file using wavefront alignment algorithm (WFA).
 """
 
 import logging
+import os
 import sys
 import pysam
 import queue
@@ -169,6 +170,9 @@ def realign_gaf(gaf, graph, fasta, output, cores=1):
 
     seq_batch = []
     batch_size = 1000
+    if os.environ.get("GAFTOOLS_VERIF") == "1" and os.environ.get("GAFTOOLS_VERIF_REALIGN_BATCH"):
+        # verification hook (off by default): smaller batches for schedule / fault exploration
+        batch_size = int(os.environ["GAFTOOLS_VERIF_REALIGN_BATCH"])
     gaf_file = GAF(gaf)
     priority_counter = 0
     for line in gaf_file.read_file():
